@@ -22,6 +22,9 @@ pub fn build_kind() -> &'static str {
         "miri-generic"
     } else if cfg!(feature = "portable") {
         "portable"
+    } else if cfg!(all(feature = "std", target_feature = "avx2")) {
+        // run-time dispatch compiled for the CPU of this host (-Ctarget-cpu=native)
+        "std-native"
     } else if cfg!(feature = "std") {
         "std-dispatch"
     } else if cfg!(target_feature = "avx2") {
